@@ -56,6 +56,21 @@ impl<'a> Iterator for TokenIterator<'a> {
     }
 }
 
+/// The element symbols of a text that has the shape of a chemical formula
+/// (symbols and counts only), in order of appearance.
+pub fn formula_symbols(formula: &str) -> Option<Vec<String>> {
+    if formula.is_empty() {
+        return None;
+    }
+    TokenIterator::new(formula)
+        .filter_map(|token| match token {
+            Token::Symbol(symbol) => Some(Some(symbol)),
+            Token::Count(_) => None,
+            Token::Error => Some(None),
+        })
+        .collect()
+}
+
 /**
  * Compute the molar mass of a compound given its chemical formula.
  */
